@@ -139,6 +139,45 @@ pub fn instances(tier: Tier) -> Vec<Wcnf> {
         }
     }
     out.extend(wide_instances(tier));
+    out.extend(cover_instances(tier));
+    out
+}
+
+/// Unit-weight instances with 9-12 soft clauses most of which are falsified in every solution
+/// (minimum vertex cover of dense graphs: the soft clause -v costs 1 when v is in the cover): the
+/// sorting / merge networks of the cardinality encoding and the totaliser trees get inputs of 4
+/// and more per merger, and high counts.
+fn cover_instances(tier: Tier) -> Vec<Wcnf> {
+    let mut out = vec![];
+    let ns: Vec<usize> = if tier.quick() { vec![10, 11] } else { vec![9, 10, 11, 12] };
+    for n in ns {
+        let all: Vec<(usize, usize)> = (1..=n).flat_map(|a| (a + 1..=n).map(move |b| (a, b))).collect();
+        let mut graphs: Vec<Vec<(usize, usize)>> = vec![];
+        // complete graph
+        graphs.push(all.clone());
+        // complete graph minus a perfect matching
+        graphs.push(all.iter().copied().filter(|(a, b)| !(a % 2 == 1 && *b == a + 1)).collect());
+        // complete graph minus a Hamiltonian path
+        graphs.push(all.iter().copied().filter(|(a, b)| *b != a + 1).collect());
+        // complete tripartite graph (parts by residue mod 3)
+        graphs.push(all.iter().copied().filter(|(a, b)| a % 3 != b % 3).collect());
+        if true {
+            // complete bipartite graph, and the complement of a cycle, and dense pseudo-random graphs
+            // given by arithmetic rules
+            graphs.push(all.iter().copied().filter(|(a, b)| a % 2 != b % 2).collect());
+            graphs.push(all.iter().copied().filter(|(a, b)| *b != a + 1 && !(*a == 1 && *b == n)).collect());
+            for m in [3usize, 4, 5, 7] {
+                for k in 0..7usize {
+                    graphs.push(all.iter().copied().filter(|(a, b)| (a * b + k * (a + b) + k) % m != 0).collect());
+                }
+            }
+        }
+        for g in graphs {
+            let hard: Vec<Vec<i32>> = g.iter().map(|(a, b)| vec![*a as i32, *b as i32]).collect();
+            let soft: Vec<(u32, Vec<i32>)> = (1..=n as i32).map(|v| (1, vec![-v])).collect();
+            out.push(Wcnf { n, hard, soft });
+        }
+    }
     out
 }
 
@@ -213,7 +252,7 @@ impl Property for C15 {
     }
     fn rule(&self, tier: Tier) -> String {
         format!(
-            "{} WCNF instances: (a) over <=3 variables: hard parts with 0-2 clauses of width <=2 (incl. unsatisfiable hard parts), 1-3 soft clauses of width 0-2 (empty, unit, duplicate, complementary and root-decided soft clauses) with weights from {{1,2,(3,)5}}; (b) over 4-6 variables: 4-9 soft clauses (unit softs of both polarities in 5 patterns plus one binary soft clause; equal weights 1, equal weights 2, mixed weights) x 6 structured hard parts (none, at-least-one, at-most-one, implication chain, exactly-one + equality, unsatisfiable); top = 100; every instance is run through the real binary with both --upper-bound-encoding values and two seeds (4 processes per case, 2 s wall cap each); oracle: brute force over 2^n assignments: s UNSATISFIABLE iff the hard clauses are unsatisfiable, otherwise s OPTIMUM FOUND, last o line = true minimum, the v line satisfies the hard clauses and costs exactly that; both encodings agree. A case = one instance; non-trivial = the optimum is neither 0 nor the sum of all weights.",
+            "{} WCNF instances: (a) over <=3 variables: hard parts with 0-2 clauses of width <=2 (incl. unsatisfiable hard parts), 1-3 soft clauses of width 0-2 (empty, unit, duplicate, complementary and root-decided soft clauses) with weights from {{1,2,(3,)5}}; (b) over 4-6 variables: 4-9 soft clauses (unit softs of both polarities in 5 patterns plus one binary soft clause; equal weights 1, equal weights 2, mixed weights) x 6 structured hard parts (none, at-least-one, at-most-one, implication chain, exactly-one + equality, unsatisfiable); (c) unit-weight minimum-vertex-cover instances of dense graphs over 9-12 variables (complete, minus a matching / path / cycle, multipartite, arithmetic rules) whose optimum falsifies most soft clauses; top = 100; every instance is run through the real binary with both --upper-bound-encoding values and two seeds (4 processes per case, 2 s wall cap each); oracle: brute force over 2^n assignments: s UNSATISFIABLE iff the hard clauses are unsatisfiable, otherwise s OPTIMUM FOUND, last o line = true minimum, the v line satisfies the hard clauses and costs exactly that; both encodings agree. A case = one instance; non-trivial = the optimum is neither 0 nor the sum of all weights.",
             instances(tier).len()
         )
     }
